@@ -33,13 +33,148 @@ fn literal(mut idx: u64) -> String {
     crate::gen::tokens_to_string(&ALPHA, &d)
 }
 
+/// Non-ASCII literals: characters whose case relations are not ASCII-like (final
+/// sigma, long s, dotted capital I, sharp s), an astral character, and a dot.
+const NA: [&str; 14] = ["\u{3a3}", "\u{3c3}", "\u{3c2}", "\u{17f}", "S", "s", "\u{e9}", "\u{c9}", "\u{130}", "i", "\u{df}", "\u{1F600}", "\u{39f}", "."];
+
+fn na_count(maxlen: u32) -> u64 {
+    (1..=maxlen).map(|l| (NA.len() as u64).pow(l)).sum()
+}
+
+fn na_literal(mut idx: u64) -> String {
+    let k = NA.len() as u64;
+    let mut len = 1;
+    let mut block = k;
+    while idx >= block {
+        idx -= block;
+        block *= k;
+        len += 1;
+    }
+    let d = crate::util::nth_token_string(&NA, len, idx);
+    crate::gen::tokens_to_string(&NA, &d)
+}
+
 fn space_for(tier: Tier) -> Space {
     let mut s = Space::new();
     match tier {
-        Tier::Quick => s.list("literals<=3", count(3), 64),
-        Tier::Thorough => s.list("literals<=4", count(4), 64),
+        Tier::Quick => s.list("literals<=3", count(3), 64).list("non-ASCII literals<=2", na_count(2), 16),
+        Tier::Thorough => s.list("literals<=4", count(4), 64).list("non-ASCII literals<=3", na_count(3), 16),
     };
     s
+}
+
+/// Three-valued character relation under flag i: Some(true) when the two are equal
+/// or simple upper/lower-case counterparts of each other (must match), Some(false)
+/// when no simple mapping or folding relates them (must not), None otherwise.
+fn rel_ci(cm: &icu_casemap::CaseMapper, a: char, b: char) -> Option<bool> {
+    if a == b || cm.simple_uppercase(a) == b || cm.simple_lowercase(a) == b || cm.simple_uppercase(b) == a || cm.simple_lowercase(b) == a {
+        return Some(true);
+    }
+    let forms = |c: char| [c, cm.simple_uppercase(c), cm.simple_lowercase(c), cm.simple_fold(c), cm.simple_titlecase(c)];
+    let (fa, fb) = (forms(a), forms(b));
+    if fa.iter().any(|x| fb.contains(x)) {
+        None
+    } else {
+        Some(false)
+    }
+}
+
+impl C13 {
+    fn non_ascii(&self, out: &mut ChunkOut, lo: u64, hi: u64) {
+        let cm = icu_casemap::CaseMapper::new();
+        for idx in lo..hi {
+            let lit = na_literal(idx);
+            let lc: Vec<char> = lit.chars().collect();
+            let mut inputs: Vec<String> = vec![
+                lit.clone(),
+                format!("x{}", lit),
+                format!("{}x", lit),
+                format!("{} {}", lit, lit),
+                format!("\u{39f}\u{394}\u{39f}{}", lit),
+                format!("\u{39f}\u{394}\u{39f}{} x", lit),
+                format!("{}\u{39f}", lit),
+                format!("{}", lit.to_uppercase()),
+                format!("{}", lit.to_lowercase()),
+                String::new(),
+            ];
+            for a in NA {
+                inputs.push(a.to_string());
+                inputs.push(format!("{}{}", a, a));
+            }
+            inputs.sort();
+            inputs.dedup();
+            for flags in ["q", "qi", "iq", "qims"] {
+                let ci = flags.contains('i');
+                let base = Case::new("NALIT", &lit, flags);
+                let re = match imp::compile(&lit, flags, false) {
+                    Out::Ok(re) => re,
+                    o => {
+                        if !o.is_crash() {
+                            out.fail("C13", &base.clone().api("compile"), "LiteralRejected", "Ok (every string is a valid literal pattern)", &format!("{:?}", o.map(|_| ())), "");
+                        }
+                        continue;
+                    }
+                };
+                out.inc("nontrivial");
+                for inp in &inputs {
+                    let ic: Vec<char> = inp.chars().collect();
+                    out.inc("states");
+                    // does some alignment definitely match / do all alignments definitely fail?
+                    let mut definite_yes = false;
+                    let mut all_no = true;
+                    if ic.len() >= lc.len() {
+                        for st in 0..=(ic.len() - lc.len()) {
+                            let rels: Vec<Option<bool>> = (0..lc.len()).map(|k| if ci { rel_ci(&cm, lc[k], ic[st + k]) } else { Some(lc[k] == ic[st + k]) }).collect();
+                            if rels.iter().all(|r| *r == Some(true)) {
+                                definite_yes = true;
+                            }
+                            if !rels.iter().any(|r| *r == Some(false)) {
+                                all_no = false;
+                            }
+                        }
+                    }
+                    let case = base.clone().input(inp);
+                    let m = imp::is_match(&re, inp);
+                    let an = imp::analyze(&re, inp);
+                    let tk = imp::tokenize(&re, inp);
+                    let rp = imp::replace_all(&re, inp, "\u{1}");
+                    let (m, an, tk, rp) = match (m, an, tk, rp) {
+                        (Out::Ok(m), Out::Ok(a), Out::Ok(t), Out::Ok(r)) => (m, a, t, r),
+                        (m, a, t, r) => {
+                            if m.is_crash() || a.is_crash() || t.is_crash() || r.is_crash() {
+                                out.inc("inconclusive_crash");
+                            } else {
+                                out.fail("C13", &case.clone().api("all"), "LiteralApiFails", "Ok from every API", &format!("is_match={} analyze={} tokenize={} replace_all={}", m.show(), a.show(), t.show(), r.show()), "");
+                            }
+                            continue;
+                        }
+                    };
+                    out.inc("validated");
+                    if definite_yes && !m {
+                        out.fail("C13", &case.clone().api("is_match"), "WrongFalse", "true", "false", "the literal occurs (characters equal or simple case counterparts)");
+                    }
+                    if all_no && m {
+                        out.fail("C13", &case.clone().api("is_match"), "WrongTrue", "false", "true", "no alignment relates the characters by any simple case mapping or folding");
+                    }
+                    // the four APIs see the same occurrences
+                    let found_an = an.iter().any(|e| matches!(e, AnalyzeEntry::Match(_)));
+                    let found_tk = tk.len() > 1;
+                    let found_rp = rp.contains('\u{1}');
+                    if !(m == found_an && (inp.is_empty() || m == found_tk) && m == found_rp) {
+                        out.fail(
+                            "C13",
+                            &case.clone().api("all"),
+                            "ApisDisagreeOnOccurrence",
+                            "is_match, analyze, tokenize and replace_all agree on whether the literal occurs",
+                            &format!("is_match={} analyze={} tokenize={} replace_all={}", m, found_an, found_tk, found_rp),
+                            "",
+                        );
+                    }
+                }
+            }
+            out.sample(J::obj(vec![("literal", J::s(&lit)), ("flags", J::s("q qi iq qims"))]));
+        }
+    }
 }
 
 fn fold(s: &str, ci: bool) -> String {
@@ -88,7 +223,11 @@ impl Check for C13 {
     }
     fn run_chunk(&self, ctx: &Ctx, chunk: u64, out: &mut ChunkOut) {
         let sp = space_for(ctx.tier);
-        let (_seg, lo, hi) = sp.locate(chunk);
+        let (seg, lo, hi) = sp.locate(chunk);
+        if crate::space::seg_scope_name(seg).starts_with("non-ASCII") {
+            self.non_ascii(out, lo, hi);
+            return;
+        }
         for idx in lo..hi {
             let lit = literal(idx);
             let nontrivial = lit.chars().any(|c| "()[]{}\\?*+|.^$-".contains(c));
